@@ -353,11 +353,17 @@ impl Display for Number {
 
 impl Number {
     pub fn value(&self) -> i64 {
+        // A number that does not fit was already reported by the parser
+        self.try_value().unwrap_or_default()
+    }
+
+    /// The value, or `None` when the number does not fit in 64 bits
+    pub fn try_value(&self) -> Option<i64> {
         // The parser accepts 'true' and 'false' in any letter case
         match self.data.to_lowercase().as_str() {
-            "true" => 1,
-            "false" => 0,
-            _ => i64::from_str_radix(&self.data, self.radix).ok().unwrap(),
+            "true" => Some(1),
+            "false" => Some(0),
+            _ => i64::from_str_radix(&self.data, self.radix).ok(),
         }
     }
 
